@@ -19,7 +19,7 @@ import (
 )
 
 func init() {
-	register(&Prop{ID: "C04", Module: "V.C04.Check", Gen: c04Gen, Quick: 2600, Thorough: 40000, Shard: 220})
+	register(&Prop{ID: "C04", Module: "V.C04.Check", Gen: c04Gen, Quick: 2200, Thorough: 40000, Shard: 160})
 }
 
 var c04FS = fstest.MapFS{
@@ -219,6 +219,37 @@ func c04Project(g *d2graph.Graph, cfg *d2target.Config) *c04Proj {
 	return p
 }
 
+// c04Window: what Coq compares for one clause: both projections entirely when short, else the same window of
+// both around the first difference (their last 64 runes when they are equal).
+func c04Window(a, b string) (string, string) {
+	ra, rb := []rune(a), []rune(b)
+	if len(ra) <= 96 && len(rb) <= 96 {
+		return a, b
+	}
+	i := 0
+	for i < len(ra) && i < len(rb) && ra[i] == rb[i] {
+		i++
+	}
+	if i == len(ra) && i == len(rb) {
+		return string(ra[len(ra)-64:]), string(rb[len(rb)-64:])
+	}
+	lo := i - 24
+	if lo < 0 {
+		lo = 0
+	}
+	cut := func(r []rune) string {
+		hi := lo + 120
+		if hi > len(r) {
+			hi = len(r)
+		}
+		if lo > len(r) {
+			return ""
+		}
+		return string(r[lo:hi])
+	}
+	return cut(ra), cut(rb)
+}
+
 type c04Result struct {
 	compiled bool
 	ok2      bool
@@ -269,7 +300,7 @@ func c04Run(text string) c04Result {
 				wa, wb := c03Window(a, b)
 				res.detail[fmt.Sprintf("clause%d", c)] = c03Trunc(wa, 300) + "  <<>>  " + c03Trunc(wb, 300)
 			}
-			wa, wb := c03Window(a, b)
+			wa, wb := c04Window(a, b)
 			clauses = append(clauses, fmt.Sprintf("(%d, %s, %s)", c, coqRunes(wa), coqRunes(wb)))
 		}
 		seen := map[string]bool{}
@@ -333,6 +364,19 @@ func c04Gen(r *Rng, tier string, n int) []Case {
 			out = append(out, c)
 		}
 		return ok
+	}
+	addBoard := func(items []c04Item, rr *Rng, class string) {
+		if c, ok := c04BoardCase(items, rr, class); ok && !seen[c.Key] {
+			seen[c.Key] = true
+			out = append(out, c)
+		}
+	}
+	addBoard([]c04Item{{decl: 1}, {own: []int{3}}, {decl: 2}}, nil, "corpus")
+	addBoard([]c04Item{{decl: 1}, {decl: 2}, {own: []int{3}}}, nil, "corpus")
+	addBoard([]c04Item{{own: []int{1}}, {decl: 2}, {own: []int{3, 4}}, {decl: 5}}, nil, "corpus")
+	addBoard([]c04Item{{own: []int{1}}, {own: []int{2}}}, nil, "corpus")
+	for i := 0; i < 60; i++ {
+		addBoard(c04RandItems(r), r, "generated")
 	}
 	for _, t := range c04Corpus {
 		add(t, "corpus")
